@@ -65,12 +65,28 @@ pub fn exec_default(t: &dyn TypeOps, ar: &mut Arena, place: Place, pre: &[u8]) -
     let (start, sl) = ar.place(pre, place, FILL);
     let len = sl.len();
     let r = guarded(|| t.default_in_place(sl).unwrap());
-    let mut out = format!("{} {}", res_str(r.clone()), hex(sl));
+    let after = hex(sl);
+    let zdirect = if matches!(r, Some(Ok(()))) { Some(t.probe(sl).res.as_ref().map(|x| x.2).unwrap_or(usize::MAX)) } else { None };
+    let mut out = format!("{} {}", res_str(r.clone()), after);
     if matches!(r, Some(Ok(()))) {
         out += &format!(" p={}", probe_str(t, sl));
     }
     if !ar.outside_intact(start, len, FILL) {
         out += " OUTSIDE-WRITTEN";
+    }
+    // `FlatWrap::default_in_place` over the same bytes must behave exactly like `default_in_place`
+    {
+        let (_, sl2) = ar.place(pre, place, FILL);
+        let rw = guarded(|| t.wrap_default_in_place(sl2).unwrap());
+        let same = match (&r, &rw) {
+            (Some(Ok(())), Some(Ok(z))) => Some(*z) == zdirect && hex(sl2) == after,
+            (Some(Err(a)), Some(Err(b))) => a == b && hex(sl2) == after,
+            (None, None) => true,
+            _ => false,
+        };
+        if !same {
+            out += " WRAP-DIFF";
+        }
     }
     out
 }
